@@ -43,7 +43,14 @@ def main():
             if bad:
                 m = bad[0]
                 out.update(verdict="cex", cex_message=m.message, cex_state=m.state.name)
-                mm = re.search(r"when calling (\w+)\((.*?)\)(?: \(which .*\))?$", m.message, re.S)
+                msg = m.message
+                k = msg.find(") with crosshair.patch_to_return(")
+                if k >= 0:
+                    # CrossHair also chose return values for an unpatched nondeterministic function (e.g. time.time);
+                    # the replay runs with the real function instead
+                    out["cex_patches"] = msg[k + 7:]
+                    msg = msg[:k + 1]
+                mm = re.search(r"when calling (\w+)\((.*?)\)(?: \(which .*\))?$", msg, re.S)
                 if mm:
                     out["cex_call"] = mm.group(2)
             elif any(s in (MessageType.SYNTAX_ERR, MessageType.IMPORT_ERR) for s in states):
